@@ -18,6 +18,11 @@ def fwIdx : Pc → Option Nat
 /-- what is known about one actor's call in progress (all values are that actor's; `now` is the global clock) -/
 structure TimeOk (k : Kind) (now : Nat) (pc : Pc) (cur : Call) (got : Option Nat) (start : Option Nat)
     (wake reads steps : Nat) (saw ep : Bool) (lastRead base : Nat) : Prop where
+  c1 : (pc = .wTime ∨ pc = .wSleep ∨ pc = .fwClock) → ∃ t tl, cur = .popWait t tl
+  c2 : (pc = .tSleep ∨ pc = .tTime) → ∃ abs, cur = .popTimedwait abs
+  c3 : (pc = .psAcq ∨ pc = .psSpin ∨ pc = .psCs ∨ pc = .psRel ∨ pc = .fpLock ∨ pc = .fpCs ∨ pc = .fpSig ∨ pc = .fpUnl) →
+        ∃ u, cur = .push u
+  c4 : (pc = .fnCheck ∨ pc = .fnLock ∨ pc = .fnCs ∨ pc = .fnUnl) → ∃ tl, cur = .pop tl
   e0 : (∀ u, cur ≠ .push u) → pc = .retp → got = none → ep = true
   e1 : (pc = .aRel ∨ pc = .fnUnl ∨ pc = .fwUnl) → got = none → ep = true
   e2 : (pc = .wTime ∨ pc = .tSleep ∨ pc = .tTime) → ep = true
@@ -46,7 +51,7 @@ def InvC (k : Kind) (s : St) : Prop :=
 theorem timeOk_mono {k : Kind} {now now' : Nat} {pc cur got start wake reads steps saw ep lastRead base}
     (h : TimeOk k now pc cur got start wake reads steps saw ep lastRead base) (hle : now ≤ now') :
     TimeOk k now' pc cur got start wake reads steps saw ep lastRead base := by
-  refine ⟨h.e0, h.e1, h.e2, h.w1, ?_, h.w4, h.w5, h.w6, ?_, h.t2, h.t3, h.f1, h.f2, h.f3, h.f4⟩
+  refine ⟨h.c1, h.c2, h.c3, h.c4, h.e0, h.e1, h.e2, h.w1, ?_, h.w4, h.w5, h.w6, ?_, h.t2, h.t3, h.f1, h.f2, h.f3, h.f4⟩
   · intro t tl s0 a b c d
     obtain ⟨x1, x2, x3, x4⟩ := h.w2 t tl s0 a b c d
     exact ⟨x1, x2, fun e => Nat.le_trans (x3 e) hle, x4⟩
@@ -58,11 +63,51 @@ theorem invC_init (k : Kind) : InvC k init := by
   intro a
   constructor <;> simp [init, LoopA, fwIdx]
 
-/-- tactic for the acting actor: every clause of the new `TimeOk` from the clauses of the old one -/
-macro "tk" h:ident : tactic => `(tactic|
-  (have a0 := ($h).e0; have a1 := ($h).e1; have a2 := ($h).e2; have a3 := ($h).w1; have a4 := ($h).w2; have a5 := ($h).w4
-   have a6 := ($h).w5; have a7 := ($h).w6; have a8 := ($h).t1; have a9 := ($h).t2; have a10 := ($h).t3
-   have a11 := ($h).f1; have a12 := ($h).f2; have a13 := ($h).f3; have a14 := ($h).f4
-   constructor <;> grind [LoopA, fwIdx]))
+/-- tactic for the acting actor: every clause of the new `TimeOk` from the relevant clauses of the old one;
+`p`, `f` : the actor's old program counter is on the pool kind's side -/
+macro "tk" h:ident p:ident f:ident : tactic => `(tactic|
+  (constructor
+   · have := ($h).c1; grind
+   · have := ($h).c2; grind
+   · have := ($h).c3; grind
+   · have := ($h).c4; grind
+   · have := ($h).c3; have := ($h).e0; have := ($h).e1; have := ($h).e2; grind
+   · have := ($h).e1; grind
+   · have := ($h).e1; have := ($h).e2; grind
+   · have := $p; have := ($h).c2; have := ($h).w1; grind [LoopA, FwPc]
+   · have := $p; have := ($h).c2; have := ($h).w1; have := ($h).w2; grind [LoopA, FwPc]
+   · have := $p; have := ($h).c3; have := ($h).w2; have := ($h).w4; grind [LoopA, FwPc]
+   · have := $p; have := ($h).c3; have := ($h).w1; have := ($h).w2; have := ($h).w5; grind [LoopA, FwPc]
+   · have := $p; have := ($h).c2; have := ($h).c3; have := ($h).w6; grind [LoopA, FwPc]
+   · have := $p; have := ($h).c1; have := ($h).t1; grind [LoopA, FwPc]
+   · have := $p; have := ($h).c1; have := ($h).c3; have := ($h).t1; have := ($h).t2; grind [LoopA, FwPc]
+   · have := $p; have := ($h).c1; have := ($h).c3; have := ($h).t1; have := ($h).t3; grind [LoopA, FwPc]
+   · have := ($h).f1; grind
+   · have := ($h).f1; have := ($h).f2; grind
+   · have := ($h).f3; grind
+   · have := $f; have := ($h).c3; have := ($h).c4; have := ($h).f4; grind [fwIdx, PollPc]))
+
+/-- the other actors: nothing of theirs changed, the clock did not go back -/
+macro "other" h:ident b:ident hb:ident : tactic => `(tactic|
+  (have hb0 := $h $b
+   simp only [bump, setPc, takeL, dropL, linkQ, upd, $hb:ident, if_false] at hb0 ⊢
+   first | exact hb0 | exact timeOk_mono hb0 (by simp_all <;> omega)))
+
+macro "acting" hA:ident h:ident a:ident : tactic => `(tactic|
+  (have hb0 := $h $a
+   have hkP := fun e => ($hA).kindP e $a
+   have hkF := fun e => ($hA).kindF e $a
+   simp only [bump, setPc, takeL, dropL, linkQ, upd, if_true] at hb0 ⊢
+   tk hb0 hkP hkF))
+
+/-- after the case analysis of a step function: conclude for every actor -/
+macro "pointwise" hA:ident h:ident a:ident hs:ident : tactic => `(tactic|
+  first
+  | (cases $hs:ident; done)
+  | (cases $hs:ident
+     intro b
+     by_cases hb : b = $a
+     · subst hb; acting $hA $h b
+     · other $h b hb))
 
 end ArgoVerif.Model.PopWait
